@@ -33,10 +33,18 @@ def build_unit(name, unit):
     spec_path = os.path.join(ROOT, unit["spec"])
     with open(spec_path) as f:
         spec_text = f.read()
+    for pre in unit.get("preludes", []):
+        with open(os.path.join(ROOT, pre)) as f:
+            spec_text = f.read() + "\n" + spec_text
     main_src = unit["src"]
     for sname, (rel, fields) in unit.get("shims", {}).items():
         omitted = X.check_shim(src_of(rel or main_src), sname, fields)
         log["shim_fields_omitted"][sname] = omitted
+    for rel, pattern, why in unit.get("expect_text", []):
+        # a fact about /repo that an assumed shim contract relies on: re-checked on every run
+        if not re.search(pattern, src_of(rel)):
+            raise X.ExtractError(f"expected text not found in {rel}: {pattern!r} ({why})")
+        log["rewrites"].append(f"checked {rel} still contains /{pattern}/ ({why})")
     consts = {}
     for cname, (rel, pattern) in unit.get("consts", {}).items():
         ty, val = X.find_const(src_of(rel or main_src), cname)
